@@ -1,5 +1,164 @@
-(** C02 -- placeholder while the models are validated; theorems follow. *)
-From Coq Require Import ZArith Bool List.
-From L21 Require Import Base.Outcome Base.Hex Gds.GdsData Gds.GdsRecord Gds.GdsWrite Gds.GdsRead Gds.GdsSpec.
+(** C02 -- Bytes written for a library are a well-formed GDSII stream with that content.
+    Property theorems only; proofs in Gds/GdsWrite_proofs.v, Gds/GdsWFits_proofs.v,
+    Gds/GdsRtSpec_proofs.v, Gds/GdsWTables_proofs.v.
+
+    Model: Gds/GdsWrite.v ([write_lib] = gds21 `GdsLibrary::write` into a Vec<u8>).
+    Specification, written from the format manual and independent of the model: Gds/GdsSpec.v
+    ([spec_render] reference encoder, [spec_parse] reference decoder, [stream_wf]).
+    [lib_ok l]: only the invariants of the Rust types (i16 / i32 / u8 ranges, Strings are byte lists
+    that are valid UTF-8, [GdsPoint; 3] / [GdsPoint; 5] have 3 / 5 points) and, for the real-valued
+    fields (units, magnification, angle), a double inside the GDSII real range or a zero.
+    [KnownClass_C01 l]: some string of [l] has even length and last byte NUL (known-finding class
+    gds-string-even-len-trailing-nul: the format's one-NUL padding makes that byte indistinguishable
+    from padding). [some_payload_too_long l]: some string (padded to even length) or coordinate list
+    (8 bytes per point) of [l] is longer than 65531 bytes. Doubles are IEEE bit patterns;
+    [lib_canon l] is [l] with every real-valued field that is -0.0 replaced by +0.0 (a GDSII real has
+    one zero); [lib_rust_eqb] is Rust's derived `PartialEq` on GdsLibrary (doubles by `==`). *)
+From Coq Require Import ZArith Bool List String.
+From L21 Require Import Base.Outcome Base.Hex Base.F64 Gen.GdsTablesGen Gds.GdsData Gds.GdsRecord Gds.GdsWrite Gds.GdsRead
+  Gds.GdsSpec Gds.GdsRtDefs Gds.GdsRtStrip Gds.GdsRtExamples Gds.GdsWTables_proofs Gds.GdsWrite_proofs Gds.GdsWFits_proofs
+  Gds.GdsRoundtrip_proofs Gds.GdsRtSpec_proofs Gds.GdsRtStrip_proofs.
 Import ListNotations.
 Local Open Scope Z_scope.
+
+(** (1) Whatever the writer writes is, byte for byte, the reference encoding of the specification:
+    record order of the grammar, record-type / data-type numbers of the table, big-endian integers,
+    excess-64 base-16 reals (C15), STRANS flag bits, one NUL after odd-length strings, ENDLIB last. *)
+Theorem C02_writer_is_reference :
+  forall l bs, lib_ok l -> write_lib l = Ok bs -> bs = spec_render l.
+Proof.
+  intros l bs Hok Hw. destruct (GdsRt_write_ok_fits l bs Hw) as [_ ->].
+  symmetry. apply GdsRtS_spec_render_encb, Hok.
+Qed.
+
+(** (2) The writer never panics and fails only with the record-length error, exactly when some
+    payload does not fit the 16-bit length field. (All libraries; no hypothesis.) *)
+Theorem C02_write_errors_only_on_length :
+  forall l, (some_payload_too_long l = false /\ exists bs, write_lib l = Ok bs) \/
+            (some_payload_too_long l = true /\ write_lib l = Err ERecordLen).
+Proof.
+  intros l. rewrite GdsW_write_lib_eq, GdsW_fits_iff_payloads.
+  destruct (some_payload_too_long l); cbn [negb]; [right | left]; eauto.
+Qed.
+
+(** (3) The bytes are a well-formed stream: complete records with even lengths >= 4 up to ENDLIB,
+    every (record type, data type) pair from the specification's table, none of the unused record
+    types, and the record sequence derives from <library> of the grammar. *)
+Theorem C02_stream_wf :
+  forall l bs, lib_ok l -> ~ KnownClass_C01 l -> write_lib l = Ok bs -> stream_wf bs.
+Proof.
+  intros l bs Hok Hk Hw. rewrite (C02_writer_is_reference l bs Hok Hw), <- (app_nil_r (spec_render l)).
+  apply GdsRtS_stream_wf_render; [exact Hok | exact Hk | apply (GdsRt_write_ok_fits l bs Hw)].
+Qed.
+
+(** (4) The independent decoder recovers the library from the bytes: exactly [l], except that a
+    real-valued field holding -0.0 comes back as +0.0. *)
+Theorem C02_spec_parse :
+  forall l bs, lib_ok l -> ~ KnownClass_C01 l -> write_lib l = Ok bs -> spec_parse bs = Some (lib_canon l).
+Proof.
+  intros l bs Hok Hk Hw. rewrite (C02_writer_is_reference l bs Hok Hw), <- (app_nil_r (spec_render l)).
+  apply GdsRtS_spec_parse_render; [exact Hok | exact Hk | apply (GdsRt_write_ok_fits l bs Hw)].
+Qed.
+Corollary C02_spec_parse_eq :
+  forall l bs, lib_ok l -> ~ KnownClass_C01 l -> write_lib l = Ok bs ->
+    exists l', spec_parse bs = Some l' /\ lib_rust_eqb l l' = true.
+Proof.
+  intros l bs Hok Hk Hw. exists (lib_canon l). split; [apply C02_spec_parse; assumption | apply GdsRt_lib_ok_canon_rust_eq, Hok].
+Qed.
+Corollary C02_spec_parse_exact :
+  forall l bs, lib_ok l -> ~ KnownClass_C01 l -> (forall x, In x (lib_reals l) -> x <> two63) ->
+    write_lib l = Ok bs -> spec_parse bs = Some l.
+Proof.
+  intros l bs Hok Hk Hz Hw. rewrite (C02_spec_parse l bs Hok Hk Hw), (GdsRt_canon_no_negzero l Hz). reflexivity.
+Qed.
+
+(** (4') For EVERY library (also inside the class) the bytes are a well-formed stream, and the
+    independent decoder recovers [lib_canon (lib_strip l)]: [l] with the last byte removed from
+    every string of even length ending in NUL and nothing else changed ([lib_strip], Gds/GdsRtStrip.v;
+    [lib_strip l = l] outside the class, C01_strip_outside_class). *)
+Theorem C02_stream_wf_total :
+  forall l bs, lib_ok l -> write_lib l = Ok bs -> stream_wf bs.
+Proof.
+  intros l bs Hok Hw. rewrite (C02_writer_is_reference l bs Hok Hw), <- (app_nil_r (spec_render l)).
+  apply GdsRtP_spec_parse_total; [exact Hok | apply (GdsRt_write_ok_fits l bs Hw)].
+Qed.
+Theorem C02_spec_parse_total :
+  forall l bs, lib_ok l -> write_lib l = Ok bs -> spec_parse bs = Some (lib_canon (lib_strip l)).
+Proof.
+  intros l bs Hok Hw. rewrite (C02_writer_is_reference l bs Hok Hw), <- (app_nil_r (spec_render l)).
+  apply GdsRtP_spec_parse_total; [exact Hok | apply (GdsRt_write_ok_fits l bs Hw)].
+Qed.
+
+(** (5) The excluded class really is excluded for a reason: library name "a\0" is written as the
+    two bytes 61 00, which the reference decoder (like every GDSII reader) reads as "a". *)
+Theorem C02_known_class_refuted :
+  exists l bs, lib_ok l /\ KnownClass_C01 l /\ write_lib l = Ok bs /\ stream_wf bs /\
+    exists l', spec_parse bs = Some l' /\ lib_rust_eqb l l' = false.
+Proof.
+  exists GdsRt_known_lib. eexists. split; [vm_compute; reflexivity|]. split; [vm_compute; reflexivity|].
+  split; [vm_compute; reflexivity|]. split; [vm_compute; reflexivity|].
+  exists GdsRt_known_lib_read. split; vm_compute; reflexivity.
+Qed.
+
+(** (6) Translator leg (re-checked on every run against the Rust source, Gen/GdsTablesGen.v):
+    the implementation's record and data type numbering is the specification's, and the
+    (record type, data type, length) tables of `write_record_header` / `read_record_content` are
+    the table [arm_of] of the model and carry the data types of the specification's table. *)
+Theorem C02_numbering_is_spec :
+  gen_rtypes = map (fun '(_, nm, c, _) => (nm, c)) spec_records /\ gen_dtypes = spec_dtypes /\ gen_invalid = spec_unused.
+Proof. exact (conj GdsW_rtypes_eq_spec (conj GdsW_dtypes_eq_spec GdsW_invalid_eq_spec)). Qed.
+Theorem C02_tables_are_model :
+  gen_rtypes = rtype_table /\ gen_dtypes = dtype_table /\ gen_invalid = invalid_table /\
+  GdsW_same_set GdsW_arm_eqb GdsW_write_arms arm_table = true /\
+  GdsW_same_set GdsW_arm_eqb GdsW_read_arms arm_table = true.
+Proof.
+  exact (conj GdsW_rtypes_eq_model (conj GdsW_dtypes_eq_model (conj GdsW_invalid_eq_model
+        (conj GdsW_write_arms_eq_model GdsW_read_arms_eq_model)))).
+Qed.
+
+(** Non-vacuity: a library with all seven element kinds, once with every optional field present
+    (flags, plex, path type / width / extensions, presentation, transforms with magnification and
+    angle, property lists with an empty and a non-ASCII string, coordinates at both ends of the i32
+    range) and once with none, meets the hypotheses and is written; a -0.0 magnification; the longest
+    coordinate list that fits; a structure name one byte too long gives the length error. *)
+Example C02_nonvacuous :
+  lib_okb GdsRt_full_lib = true /\ known_class_c01b GdsRt_full_lib = false /\
+  some_payload_too_long GdsRt_full_lib = false /\ is_ok (write_lib GdsRt_full_lib) = true /\
+  (match write_lib GdsRt_full_lib with Ok bs => spec_parse bs | _ => None end) = Some GdsRt_full_lib /\
+  lib_okb GdsRt_negzero_lib = true /\ known_class_c01b GdsRt_negzero_lib = false /\
+  lib_eqb (lib_canon GdsRt_negzero_lib) GdsRt_negzero_lib = false /\
+  lib_okb GdsRt_max_xy_lib = true /\ is_ok (write_lib GdsRt_max_xy_lib) = true /\
+  lib_okb GdsRt_long_lib = true /\ some_payload_too_long GdsRt_long_lib = true /\
+  is_err (write_lib GdsRt_long_lib) = true.
+Proof. vm_compute. repeat split; reflexivity. Qed.
+
+(** statements pinned: a change of a statement above breaks the build *)
+Check C02_writer_is_reference : forall l bs, lib_ok l -> write_lib l = Ok bs -> bs = spec_render l.
+Check C02_write_errors_only_on_length :
+  forall l, (some_payload_too_long l = false /\ exists bs, write_lib l = Ok bs) \/
+            (some_payload_too_long l = true /\ write_lib l = Err ERecordLen).
+Check C02_stream_wf : forall l bs, lib_ok l -> ~ KnownClass_C01 l -> write_lib l = Ok bs -> stream_wf bs.
+Check C02_spec_parse : forall l bs, lib_ok l -> ~ KnownClass_C01 l -> write_lib l = Ok bs -> spec_parse bs = Some (lib_canon l).
+Check C02_spec_parse_eq :
+  forall l bs, lib_ok l -> ~ KnownClass_C01 l -> write_lib l = Ok bs ->
+    exists l', spec_parse bs = Some l' /\ lib_rust_eqb l l' = true.
+Check C02_spec_parse_exact :
+  forall l bs, lib_ok l -> ~ KnownClass_C01 l -> (forall x, In x (lib_reals l) -> x <> two63) ->
+    write_lib l = Ok bs -> spec_parse bs = Some l.
+Check C02_stream_wf_total : forall l bs, lib_ok l -> write_lib l = Ok bs -> stream_wf bs.
+Check C02_spec_parse_total : forall l bs, lib_ok l -> write_lib l = Ok bs -> spec_parse bs = Some (lib_canon (lib_strip l)).
+Check C02_known_class_refuted :
+  exists l bs, lib_ok l /\ KnownClass_C01 l /\ write_lib l = Ok bs /\ stream_wf bs /\
+    exists l', spec_parse bs = Some l' /\ lib_rust_eqb l l' = false.
+
+Print Assumptions C02_writer_is_reference.
+Print Assumptions C02_write_errors_only_on_length.
+Print Assumptions C02_stream_wf.
+Print Assumptions C02_spec_parse.
+Print Assumptions C02_spec_parse_eq.
+Print Assumptions C02_spec_parse_exact.
+Print Assumptions C02_stream_wf_total.
+Print Assumptions C02_spec_parse_total.
+Print Assumptions C02_known_class_refuted.
+Print Assumptions C02_numbering_is_spec.
+Print Assumptions C02_tables_are_model.
